@@ -34,6 +34,7 @@ func profileFor(prop string) Profile {
 		p.PRollout, p.PLongStrings, p.PPrereq, p.PTargets, p.PCtxTargets, p.POff, p.MaxRules = 0.95, 0.25, 0, 0.02, 0.02, 0.02, 1
 		p.PSegmentOp, p.MinSegs, p.MaxClauses = 0.45, 2, 1 // weighted segment rules (incl. ones that look into another segment) share the hash
 		p.PNestedSeg = 0.12
+		p.PSegBucket = 0.3 // weighted segment rules with a bucket-by attribute; an invalid reference gives MALFORMED_FLAG at every weight
 	case "C07":
 		p.PRollout, p.PBoundary, p.PDegenerateWeights, p.PPrereq, p.PTargets, p.PCtxTargets, p.POff, p.PExperiment = 0.95, 0.75, 0.4, 0, 0.02, 0.02, 0.02, 0.2
 		p.PSegmentOp = 0.4
